@@ -191,7 +191,10 @@ def gen_valid(rng, n):
     return out
 
 
-SUBST_CHARS = [ord(c) for c in "0123456789ABCDEFabcdef"] + [ord(":"), 10, ord("A"), ord("G"), ord(" "), 0, 0xFF, ord("x")]
+# hex digits of both cases, protocol characters, and the characters next to the three hex ranges ('/' ':' '@' 'G' '`' 'g'):
+# a hand-written nibble decoder goes wrong exactly there
+SUBST_CHARS = [ord(c) for c in "0123456789ABCDEFabcdef"] + [ord(":"), 10, ord("A"), ord("G"), ord(" "), 0, 0xFF, ord("x"),
+                                                            ord("/"), ord("@"), ord("`"), ord("g")]
 
 
 def mutations_of(f):
@@ -596,6 +599,35 @@ def gen_faults(rng, n_random):
     return out
 
 
+def gen_cut_zero_check(rng, n):
+    """C02/C01: an answer whose check byte is 0x00 and whose value ends in zero bytes, cut by a read timeout at
+    every position (the rest arrives afterwards): every prefix that ends inside the trailing zeros is itself
+    checksum-consistent, so a driver that accepts an unterminated line returns a narrower value.  Expectation
+    `?v`: an error or exactly the value."""
+    out = []
+    for i in range(n):
+        kind = ["int", "uint", "raw", "str"][i % 4]
+        w = rng.choice([2, 4, 8])
+        lo, hi = rng.below(256), rng.below(256)
+        addr = lo | (hi << 8)
+        nz = 1 + rng.below(w - 1)                      # non-zero leading value bytes
+        val = [1 + rng.below(255) for _ in range(nz)] + [0] * (w - nz)
+        # choose the first value byte so that the check byte becomes 0
+        rest = (7 + lo + hi + 0 + sum(val[1:])) % 256
+        val[0] = (0x55 - rest) % 256
+        if val[0] == 0 and nz == 1:
+            continue
+        g = get_resp(addr, val)
+        if g[-3:-1] != b"00":
+            continue
+        exp = expect_for(kind, val)
+        for pos in range(1, len(g)):
+            for ev in ("e", "x"):
+                r = [ev_data(g[:pos]), ev, ev_data(g[pos:])]
+                out.append(Case("cut-zero-check", [call(kind, addr, "n", "?" + exp)], react=[r] * 8, cfg=rng.below(4)))
+    return out
+
+
 def gen_big_noise(rng, n):
     """noise longer than the 4096-byte reader buffer before the good frame"""
     out = []
@@ -658,6 +690,7 @@ def generate(tier, seed):
     cases += gen_c02_random(rng, 1000 if q else 6000)
     cases += gen_devid_all(rng, 16 if q else 1)
     cases += gen_faults(rng, 2000 if q else 12000)
+    cases += gen_cut_zero_check(rng, 8 if q else 40)
     cases += gen_big_noise(rng, 3 if q else 12)
     cases += gen_buffer_boundary(rng, q)
     return cases
